@@ -76,6 +76,7 @@ def run(rep, tier):
     rep.sample({k: events[0][k] for k in events[0] if k != "outs"})
     log("[C15] %d behaviours, %d rejected" % (len(events), nb))
     rep.assumptions += ["one parameter set (the crate's public test context); u32 only",
+                        "blind selection / retrieval / cswap / blind rotation run in a scratch of exactly what their companion size query returns (a shortage would show as a panic here; C12 has no separate corpus for them)",
                         "blind selection / retrieval / rotation are judged on the decoded plaintext (coefficient values at the plaintext scale), not limb by limb",
                         "circuit bootstrapping cell by cell uses the library's noise helper (phase minus the candidate message, largest coefficient) on its own key set (N=256, n_lwe=77, the crate's test parameters); "
                         "shapes with fewer than 16 blind-rotation positions per table entry are not generated (their failure probability is a parameter choice)"]
